@@ -76,7 +76,10 @@ Alloc == \E n \in 1 .. MaxN : \E a \in Legal(live, C, n) :
 \* any address of the partition (and one outside, and NONE): covers free, double free, unknown
 Free == \E a \in (Lo(C) - 1) .. Hi(C) :
             /\ live' = AfterFree(live, a) /\ ret' = NONE /\ op' = Op("free", a) /\ prev' = live /\ UNCHANGED C
-Next == Alloc \/ Free
+\* bulk operations: blocks() lists exactly the live ranges; freeing all of them (Buffer.free_all) leaves nothing
+\* live, whatever the reserved prefix and the client offset are - the whole partition is one free run again
+FreeAll == /\ live' = {} /\ ret' = NONE /\ op' = Op("freeall", 0) /\ prev' = live /\ UNCHANGED C
+Next == Alloc \/ Free \/ FreeAll
 Spec == Init /\ [][Next]_vars
 
 InvDisjoint == Disjoint(live)
@@ -101,5 +104,6 @@ FreedIsReusable == op.n = "free" =>
            /\ HasRun(live, C, m) /\ NONE \notin Legal(live, C, m)
 DoubleFreeNoOp == (op.n = "free" /\ ~\E r \in prev : r.a = op.x) => live = prev
 \* everything freed => the whole partition is one run again
+FreeAllFreesAll == op.n = "freeall" => live = {} /\ Legal(live, C, C.size - C.pos) = {Lo(C)}
 EmptyMeansAll == live = {} => Legal(live, C, C.size - C.pos) = {Lo(C)}
 =============================================================================
